@@ -25,7 +25,7 @@ ASSUMPTIONS = [
     'four-column bin edges are centre +/- width/2 in wavelength, reported as 10000/edge in ascending wavenumber; three-column edges are wavelength mid-points (ends mirrored)',
     'binner alignment judged with the C05 overlap-mean reference on a fine native grid (rtol 1e-9)',
 ]
-REQUIRED = {'tied-wavelengths': 0.015, 'source:array': 0.2, 'source:text': 0.1, 'source:hdf5-class': 0.08, 'source:hdf5-func': 0.08,
+REQUIRED = {'perm:extremes-at-the-ends': 0.15, 'tied-wavelengths': 0.015, 'source:array': 0.2, 'source:text': 0.1, 'source:hdf5-class': 0.08, 'source:hdf5-func': 0.08,
             'cols:4': 0.3, 'cols:3': 0.05, 'permuted': 0.4}
 # coverage-guided extra (thorough tier): pure-Python taurex modules on this property's path, instrumented by atheris
 FUZZ = {'include': ['taurex.data.spectrum', 'taurex.binning', 'taurex.util.util', 'taurex.util.hdf5'], 'runs': 20000, 'workers': 4}
@@ -44,6 +44,7 @@ def _case(draw):
     perm = draw(S.perm(list(range(n))))
     return {'source': src, 'wl0': wl0, 'ratios': ratios, 'noise': noise, 'enoise': enoise, 'cols': cols,
             'wfac': wfac, 'perm': perm, 'uniform': draw(st.sampled_from([False, False, False, True])),
+            'perm_kind': draw(st.sampled_from(['random', 'ends-descending', 'random', 'ends-ascending'])),
             # two rows sharing exactly the same wavelength (two instruments reporting the same point)
             'tie': draw(st.sampled_from([None, None, [draw(S.ints(0, 59)), draw(S.ints(0, 59))]]))}
 
@@ -106,6 +107,14 @@ def check(case):
     rows = rows_for(case)
     n = rows.shape[0]
     perm = np.array(case['perm'])
+    pk = case.get('perm_kind')
+    if pk in ('ends-descending', 'ends-ascending') and n >= 4:
+        # the extreme wavelengths stay at the two ends (as in a sorted file), only the interior rows are out of order
+        by_wl = np.argsort(rows[:, 0])
+        lo_i, hi_i = int(by_wl[0]), int(by_wl[-1])
+        interior = [int(i) for i in perm if i not in (lo_i, hi_i)]
+        perm = np.array(([hi_i] + interior + [lo_i]) if pk == 'ends-descending' else ([lo_i] + interior + [hi_i]))
+        out.cls('perm:extremes-at-the-ends')
     permuted = not np.array_equal(perm, np.arange(n))
     if permuted:
         out.cls('permuted')
